@@ -25,6 +25,7 @@ ClausesOf(e) ==
       [] e.ev = "Format"  -> FormatClauses(e)
       [] e.ev = "FormatUnit" -> FormatUnitClauses(e)
       [] e.ev = "Serde"   -> SerdeClauses(e)
+      [] e.ev = "SerdeNames" -> SerdeNameClauses(e)
       [] e.ev = "SI"      -> SIClauses(e)
       [] e.ev = "Compile" -> AnyCompileClauses(e)
       [] e.ev = "GenBuild" -> GenBuildClauses(e)
